@@ -8,7 +8,7 @@ C05 = importlib.import_module("props.C05")
 
 def harnesses(tier, seed):
     hs = []
-    for n, t in ((1, "quick"), (2, "quick"), (3, "quick"), (4, "thorough"), (5, "thorough")):
+    for n, t in ((1, "quick"), (2, "quick"), (3, "quick"), (4, "quick"), (5, "thorough")):
         for sk in gen_c06.skeletons(n, n):
             hs.append(H("gen_c06::c06_sk_" + sk, tier=t,
                         desc="SpanStack push/pop skeleton %s (u=push/enter, d=pop/exit): real SpanStack vs list model after every step: push/pop results, current(), iter()" % sk,
@@ -32,7 +32,7 @@ SPEC = {
     "caps": {"quick_harness_timeout": 300, "thorough_harness_timeout": 900, "jobs": 8, "mem_gb": 20},
     "functions": ["tracing_subscriber::registry::stack::SpanStack::{push, pop, iter, current}", "Registry::{enter, exit, current_span, new_span (contextual / explicit / root parent resolution)}", "LookupSpan::{span, span_data}, SpanData::parent, SpanRef::{parent, scope}, Scope::{next, from_root}"],
     "sym": "ids in the SpanStack kernel; metadata levels at registry level",
-    "bounds": "kernel: all push/pop sequences of <= 3 (quick) / <= 5 (thorough) operations over ids {1,2,3}; registry: the C05 skeleton bounds",
+    "bounds": "kernel: all push/pop sequences of <= 4 (quick) / <= 5 (thorough) operations over ids {1,2,3}; registry: the C05 skeleton bounds",
     "outside": "Context::{lookup_current, event_scope} from inside a layer and per-layer-filtered scope walks; tracing-error SpanTrace (formats fields into heap strings); chains > 3; the 'current' clause excludes re-entry exactly as the statement does",
     "stubs": ["core::fmt::write -> Ok(())", "H2 forwarders VSpanStack", "registry-level: as C05"],
     "assumptions": ["list model: pop removes the last matching entry; current = most recent non-duplicate entry"],
